@@ -369,6 +369,8 @@ pub enum Form {
 pub const MIXP: [&[u16]; 5] = [&[0x0061], &[0x0066, 0x006C], &[0xD83D, 0xDE42], &[0x0062], &[0x0066, 0x0066, 0x0069]];
 
 /// Every interval [a, b], 0 <= a <= b < n (n <= 5), of the code window base..base+n-1 in every form.
+/// With id0 / sh0 close to xxFF some incrementing ranges would carry out of the low byte: the caller
+/// drops those (`retain(well_formed)`); the explorer refuses ill-formed definitions.
 pub fn overlap_menu(len: u8, base: u32, n: u32, forms: &[Form], id0: u16, sh0: u16) -> Vec<Def> {
     assert!(n as usize <= MIXP.len());
     let mut m = vec![];
@@ -389,7 +391,6 @@ pub fn overlap_menu(len: u8, base: u32, n: u32, forms: &[Form], id0: u16, sh0: u
             }
         }
     }
-    debug_assert!(m.iter().all(|d| d.well_formed()));
     m
 }
 
@@ -838,6 +839,32 @@ mod tests {
         assert_eq!(lookup(&defs, 1, 0x11), None);
         assert_eq!(expected_text(&defs, &[(2, 0x12), (2, 0x11)]).unwrap(), "\u{1F602}A");
         assert_eq!(utf16_to_string(&[0xD83D, 0x41]), "\u{FFFD}A");
+    }
+
+    #[test]
+    fn overlap_menu_extra_and_segment() {
+        let all = [Form::Id, Form::IdRange1, Form::Sh, Form::IdArr, Form::Lig, Form::Mix];
+        let m = overlap_menu(2, 0x0041, 5, &all, 0x0041, 0x0061);
+        assert_eq!(m.len(), 80);
+        assert!(m.iter().all(|d| d.well_formed()));
+        // every Id / IdArr entry gives a code the same value
+        for d in overlap_menu(2, 0x0041, 5, &[Form::Id, Form::IdRange1, Form::IdArr], 0x0041, 0x0061) {
+            for c in d.lo()..=d.hi() {
+                assert_eq!(d.value(c), vec![c as u16]);
+            }
+        }
+        assert_eq!(profile_arrays(0x0041).len(), 3 * (9 + 27 + 81));
+        assert_eq!(profile_arrays(0x0041)[2], vec![vec![0x0042], vec![0x0041]]);
+        let e = Extra { codespace: vec![(1, 0x80, 0xFF), (4, 0, u32::MAX)], codespace_split: true, empty_sections: vec![(0, true), (2, false)] };
+        assert_eq!(Extra::from_json(&e.to_json()).unwrap(), e);
+        assert!(Extra::from_json(&Value::Null).unwrap().is_default());
+        let defs = vec![Def::Char { len: 1, code: 0x41, t: vec![0x41] }, Def::Range { len: 2, lo: 0x0041, hi: 0x0042, t: vec![0x61] }];
+        assert_eq!(segment(&defs, &[0x41, 0x00, 0x42]), Some(vec![(1, 0x41), (2, 0x0042)]));
+        assert_eq!(segment(&defs, &[0x00, 0x43]), None);
+        assert_eq!(segment(&[], &[]), Some(vec![]));
+        let mut ch = Chooser::new(&[]);
+        let text = String::from_utf8(render_ex(&[], &e, &mut ch)).unwrap();
+        assert!(text.contains("1 begincodespacerange\n<80> <FF>\nendcodespacerange\n1 begincodespacerange\n<00000000> <FFFFFFFF>\nendcodespacerange\n0 beginbfrange\nendbfrange\n0 beginbfchar\nendbfchar\nendcmap"), "{}", text);
     }
 
     #[test]
